@@ -56,7 +56,7 @@ prop('C10', 'c10', '5 (C10)')
 prop('C11', 'c11', '6 (C11)')
 prop('C12', 'c12', '6 (C12)', gens=('GenArith.v', 'GenMaxSize.v'))
 prop('C13', 'c13', '6 (C13)')
-prop('C14', 'c14', '7 (C14)', gens=('GenSchemaDecl.v',))
+prop('C14', 'c14', '7 (C14)', gens=('GenSchemaDecl.v', 'GenSchemaImpls.v'))
 prop('C15', 'c15', '7 (C15)', gens=('GenSchemaDecl.v',))
 prop('C16', 'c16', '7 (C16)', gens=('GenSchemaDecl.v', 'GenHashTags.v', 'GenArith.v'))
 prop('C17', 'c17', '8 (C17)', gens=('GenArith.v', 'GenLoops.v', 'GenPanicArms.v'))
